@@ -98,9 +98,10 @@ func runGlue(res *lib.Result, root string) {
 	_ = guard(s4.Close)
 }
 
-// runAlias: record.go setEntry copies the entry struct but not what Proposal.Value / Vote.ID point to,
-// and encodes at Flush time. A caller that reuses the value buffer between SetWALEntry and Flush
-// gets the later content persisted (known finding; proposed-fixes/C14-setentry-deep-copy.diff).
+// runAlias: before juno b8b5501 record.go setEntry copied the entry struct but not what Proposal.Value /
+// Vote.ID point to, and the batch is encoded at Flush time: a caller that reused the value buffer
+// between SetWALEntry and Flush got the later content persisted. Fixed; this oracle reports the
+// defect again should it come back (the signature is no longer a known finding).
 func runAlias(res *lib.Result, root string) {
 	db := filepath.Join(root, "alias")
 	_ = os.RemoveAll(db)
